@@ -20,10 +20,22 @@ def dyndep_text(entries):
     return t
 
 
-def _target_ops(names, js=(1, 2)):
+def _target_ops(names, js=(1, 2), tools=True):
     ops = [ninja_op(j=js[-1])]
     for n in names:
         ops.append(ninja_op(targets=[n], j=js[-1]))
+    if tools:
+        # the tools walk the same graph without the dependency scan that diagnoses cycles: they must at
+        # least terminate (no unbounded recursion, no hang), whatever they print
+        from scen import tool_op
+        for n in names[:2]:
+            ops.append(tool_op("clean-targets", [n], dry=True))
+            for t in ("inputs", "commands", "query", "multi-inputs", "compdb-targets"):
+                op = tool_op("readonly", ["-t", t, n])
+                op["tool_args"] = [n]
+                ops.append(op)
+        ops.append(tool_op("readonly", ["-t", "graph"]))
+        ops.append(tool_op("readonly", ["-t", "targets", "all"]))
     return ops
 
 
